@@ -30,7 +30,7 @@ def main():
         for prop in props:
             mod = importlib.import_module('simlib.p_' + prop.lower())
             for seed in seeds:
-                jobs = mod.jobs('quick', seed, big)
+                jobs = check.decorate_jobs(mod.jobs('quick', seed, big), seed, prop)
                 step = max(1, len(jobs) // n)
                 plans = [j['plan'] for j in jobs[::step][:n]]
                 for p in plans:  # keep fault batches short
